@@ -155,6 +155,9 @@ func cmdVC(args []string) {
 				mark = "FAIL(" + r.Status + ")"
 			}
 			fmt.Printf("   %-22s %6dms %-7s %s\n", mark, r.Ms, r.Solver, r.Name)
+			if i := strings.Index(r.Text, "[return point"); i >= 0 && r.Status != "unsat" {
+				fmt.Printf("        %s\n", r.Text[i:])
+			}
 			if *verbose && r.Status != "unsat" && !r.Canary {
 				out := r.Output
 				if len(out) > 3000 {
